@@ -33,8 +33,10 @@ def idxCheck (k : Nat) (s : Sym) : Bool :=
   decide (DMDec.blockShapes v = (List.range s.blocks).map (fun b => (s.dataLen b, s.dataLen b + s.blkErr))) &&
   r.1 &&
   ts.all (fun t => decide (t.1 < s.blocks) && decide (t.2 < s.dataLen t.1 + s.blkErr) && decide (t.2 < 4096)) &&
-  lens.zipIdx.all (fun lj => (List.range lj.1).all (fun i => r.2.testBit (lj.2 * 4096 + i))) &&
-  decide (lens.sum = s.total)
+  (List.range s.blocks).all (fun j => (List.range (s.dataLen j + s.blkErr)).all (fun i => r.2.testBit (j * 4096 + i))) &&
+  lens.all (fun l => decide (l ≤ 4096)) &&
+  decide (lens.sum = s.total) && decide (0 < s.blocks) && decide (s.blocks ≤ s.nData) &&
+  decide (s.blocks * s.blkErr = s.nErr)
 
 set_option maxRecDepth 10000000 in
 /-- for every row of Table 7 (decoder version = row number, 144x144 = version 24 with its special handling
